@@ -326,7 +326,7 @@ def worker(spec):
 
     # ---- single-threaded ----------------------------------------------------------------------------
     for case in range(spec["cases"]):
-        if budget.over():
+        if budget.over(0.5):
             res.count("budget_cut")
             break
         node = gen(spec["depth"], (None, None), True)
@@ -347,7 +347,7 @@ def worker(spec):
 
     # ---- threads under a turn-taking controller --------------------------------------------------------
     for case in range(spec["thread_cases"]):
-        if budget.over():
+        if budget.over(0.85):
             res.count("budget_cut")
             break
         nthreads = rng.choice((2, 2, 3, 4))
